@@ -244,3 +244,30 @@ def bool_function(stmts: list[ast.stmt], preset: dict[str, Any] | None = None, *
                 a2[n.key] = val
                 work.append(Leaf(a2, lf.outcome, lf.value, lf.stmts, lf.evaluated))
     return rows
+
+
+def check_formula(rows: list[tuple[dict[str, Any], Any, Leaf]], known: list[str], formula: Callable[[dict[str, Any]], Any], *,
+                  feasible: Callable[[dict[str, Any]], bool] | None = None, domain: Callable[[str], tuple] | None = None,
+                  where: ast.AST | None = None, outcome: Callable[[Leaf], Any] | None = None) -> list[dict[str, Any]]:
+    """Compare the rows of bool_function with a reference formula over ``known`` atoms.  A row is a partial assignment: it
+    is right iff every feasible completion gives the row's value.  Atoms outside ``known`` -> Unsupported (not a verdict).
+    Returns the wrong rows (empty list: the function computes the formula)."""
+    import itertools
+    dom = domain or (lambda k: (True, False))
+    bad: list[dict[str, Any]] = []
+    for a, v, lf in rows:
+        unknown = [k for k in a if k not in known]
+        if unknown:
+            raise Unsupported(f"decides on {unknown}", where)
+        got = outcome(lf) if outcome is not None else (bool(v) if lf.outcome == "return" else lf.outcome)
+        free = [k for k in known if k not in a]
+        vals = set()
+        for combo in itertools.product(*[dom(k) for k in free]):
+            full = dict(a)
+            full.update(dict(zip(free, combo)))
+            if feasible is not None and not feasible(full):
+                continue
+            vals.add(formula(full))
+        if vals and vals != {got}:
+            bad.append({"row": a, "value": got, "expected": sorted(vals, key=str)})
+    return bad
